@@ -771,6 +771,53 @@ fn enum_c15(tier: &str, r: &mut Rng) -> Vec<Session> {
         Call::Tab,
     ];
     let mut out = vec![];
+    // exhaustive: every history of length <= 4 (5 thorough) over {RIS, DECSC, DECRC, X}, for every X
+    // that changes a piece of state RIS has to re-initialise and DECRC can bring back
+    let extras: Vec<Call> = vec![
+        Call::DefineCharset("0".into(), "(".into()),
+        Call::DefineCharset("U".into(), ")".into()),
+        Call::ShiftOut,
+        Call::Sgr(vec![7, 31, 44]),
+        Call::SetMode(vec![6], true),
+        Call::ResetMode(vec![7], true),
+        Call::ResetMode(vec![25], true),
+        Call::SetMode(vec![5], true),
+        Call::CursorPosition(Some(3), Some(7)),
+        Call::SetMargins(Some(2), Some(3)),
+        Call::SetTabStop,
+        Call::SetMode(vec![3], true),
+    ];
+    let maxlen = counts(tier, 4, 5);
+    let mut ne = 0;
+    for x in &extras {
+        let alpha = [Call::Reset, Call::SaveCursor, Call::RestoreCursor, x.clone()];
+        let mut frontier: Vec<Vec<usize>> = vec![vec![]];
+        for _ in 0..maxlen {
+            let mut next = vec![];
+            for p in &frontier {
+                for a in 0..4 {
+                    let mut q = p.clone();
+                    q.push(a);
+                    next.push(q);
+                }
+            }
+            for q in &next {
+                // histories without X are the same for every X: keep them once
+                if !q.contains(&3) && ne > 0 {
+                    continue;
+                }
+                if !q.contains(&0) && !q.contains(&2) {
+                    continue;
+                }
+                let mut ops: Vec<Op> = q.iter().map(|a| api(alpha[*a].clone())).collect();
+                ops.push(api(Call::Reset));
+                ops.push(api(Call::Draw("q".into())));
+                ne += 1;
+                out.push(sess(format!("c15x{}", ne), 12, 4, ops));
+            }
+            frontier = next;
+        }
+    }
     for i in 0..counts(tier, 400, 8000) {
         let n = r.range(3, 14);
         let mut ops = vec![];
